@@ -28,7 +28,12 @@ LINK = {
     "plain": [],
 }
 # TUs (repo-relative) that additionally get pc-guard preemption points (DESIGN §2.1)
-PCGUARD_REPO_TUS = {"StringDictionaryHASHRPDACBlocks.cpp"}
+PCGUARD_REPO_TUS = {"StringDictionaryHASHRPDACBlocks.cpp",
+                    # the block builders (C11's anchors): preemption inside a build brings conflicting accesses of two
+                    # builders close enough in time for ThreadSanitizer to still have both stacks
+                    "StringDictionaryHASHRPDAC.cpp", "Hash/HashDAC.cpp", "RePair/RePair.cpp", "RePair/Coder/IRePair.cpp",
+                    "RePair/Coder/heap.cpp", "RePair/Coder/hash.cpp", "RePair/Coder/records.cpp", "RePair/Coder/dictionary.cpp",
+                    "RePair/Coder/arrayg.cpp", "RePair/Coder/basics.cpp", "utils/DAC_VLS.cpp", "utils/LogSequence.cpp"}
 PCGUARD_FLAG = "-fsanitize-coverage=trace-pc-guard"
 
 
